@@ -377,6 +377,8 @@ def _units_body(tier, seed):
                         functions=['TlsHandshakeClientHello.ja3', 'TlsInvalidTypeBase.__attrs_post_init__']))
     from checks import foundation, hello
     out.append(hello.unit(('K6', 'K3'), 'K6+K3: wire view and parse(compose(o)) == o'))
+    from checks import helloext
+    out.append(helloext.unit())          # the order of the extensions survives compose (JA3 after a round trip)
     return out + foundation.units(tier, seed)
 
 
